@@ -5,7 +5,9 @@ position with target classes - TLC recomputes CRCs bitwise and evaluates the for
 import core
 from core import B, limbs
 
-def W(v, nl): return limbs(v, nl)
+def W(v, nl):
+    if not isinstance(v, int) or isinstance(v, bool): return [-1]        # a CRC value is an int (a Bits register with the same value is another result)
+    return limbs(v, nl)
 
 def run(ctx):
     ctx.claim_exhaustive = False      # keys / messages / parameters are sampled over an enumerated grid; only the spec-level models are exhaustive
